@@ -48,6 +48,10 @@ func (t *TempoController) Trace(w http.ResponseWriter, r *http.Request) {
 	if err != nil {
 		end = 0
 	}
+	if len(traceId) > 64 {
+		PromError(400, "traceId is too long", w)
+		return
+	}
 	bTraceId := make([]byte, 32)
 	_, err = hex.Decode(bTraceId, []byte(traceId))
 	if err != nil {
